@@ -57,10 +57,9 @@ var lkIface = map[string]string{
 // pointer fields that alias another lock
 var lkLockAlias = map[string]string{"transaction.TransactionImpl.rwLock": "transaction.Manager.txLock"}
 
-// entry points outside the property's quantifier (C07: "Close concurrent with other calls is out of scope";
-// RotateWAL/ReloadSSTables have no caller in the engine API) and locks handed over between API calls.
-var lkExcluded = map[string]bool{"storage.Manager.Close": true, "storage.Manager.RotateWAL": true, "storage.Manager.ReloadSSTables": true,
-													"engine.EngineFacade.Close": true, "wal.WAL.SetActive": true}
+// entry points outside the property's quantifier (RotateWAL/ReloadSSTables have no caller in the engine API; Close is
+// included: it takes flushMu and mu) and locks handed over between API calls.
+var lkExcluded = map[string]bool{"storage.Manager.RotateWAL": true, "storage.Manager.ReloadSSTables": true, "wal.WAL.SetActive": true}
 var lkHandover = map[string]string{"transaction.TransactionImpl": "transaction.Manager.txLock:R"} // held from Begin to Commit/Rollback
 
 type lkFn struct {
@@ -788,6 +787,9 @@ func extractLocks(repo string) {
 	F.Facts["locks.unknownCalls"] = strings.Join(lkUniq(lkUnknownCalls), "; ")
 	F.Facts["locks.unknownLocks"] = strings.Join(lkUniq(lkUnknownLocks), "; ")
 	F.Facts["locks.excludedEntries"] = strings.Join(sortedKeys(lkExcluded), "; ")
+	// sequence hand-over at rotation (premise of unique sequence numbers, C06/C08): the old log's next sequence is read
+	// (argument of UpdateNextSequence) only AFTER the old log was marked Rotating, so no append can still succeed on it
+	F.Facts["locks.rotateWAL.seqHandover"] = P(repo, "pkg/engine/storage").callOrder("Manager.rotateWAL", "SetRotating", "GetNextSequence", "UpdateNextSequence", "atomic.StorePointer")
 }
 
 func lkUniq(xs []string) []string {
